@@ -6,7 +6,9 @@ package c10
 
 import (
 	"bytes"
+	"crypto/sha256"
 	"fmt"
+	tmcrypto "github.com/tendermint/tendermint/proto/tendermint/crypto"
 	"io"
 	"math/rand"
 	"os"
@@ -375,6 +377,24 @@ func runProofs(c *verdict.Ctx) {
 					begin(proofWitness(leaves, m, "in progress", false))
 					err = p.Verify(root, m.item)
 				}()
+				// no tree has an empty root: whatever the proof looks like, it must not verify against one
+				for _, empty := range [][]byte{nil, {}} {
+					var eerr error
+					func() {
+						defer func() {
+							if rec := recover(); rec != nil {
+								eerr = fmt.Errorf("panic: %v", rec)
+							}
+						}()
+						eerr = p.Verify(empty, m.item)
+					}()
+					c.Count("proof.verified_against_empty_root", 1)
+					if eerr == nil {
+						w := proofWitness(leaves, m, "accepted against an empty root", false)
+						w["stream"], w["case"] = "proof", t
+						c.Violation("merkle-verify-accepts-against-empty-root", "Proof.Verify accepted a proof against an EMPTY root hash (no tree has one); mutation: "+m.name, w)
+					}
+				}
 				want := ref.ProofOK(leaves, m.item, m.index, m.total, m.leaf, m.aunts)
 				got := err == nil
 				c.Count("proof.verdict."+fmt.Sprint(got), 1)
@@ -399,6 +419,40 @@ func runProofs(c *verdict.Ctx) {
 					}
 				} else {
 					c.Violation("merkle-verify-rejects-genuine", "Proof.Verify rejected a proof the reference accepts: "+fmt.Sprint(err), w)
+				}
+			}
+		}
+		// the proof runtime (proven application queries): a value operator with any proof must not verify a value
+		// against an empty root (an application hash may legitimately be empty)
+		if t%5 == 0 {
+			key, val := []byte(fmt.Sprintf("k%d", t)), leaves[r.Intn(len(leaves))]
+			vh := sha256sum(val)
+			kv := append(append([]byte{byte(len(key))}, key...), append([]byte{byte(len(vh))}, vh...)...)
+			for _, shape := range []merkle.Proof{
+				{Total: 2 + r.Int63n(6), Index: 0},                       // aunts missing
+				{Total: 1, Index: 0, Aunts: [][]byte{sha256sum(val)}},    // one aunt too many
+				{Total: 1 + r.Int63n(8), Index: r.Int63n(8), Aunts: nil}, // anything
+			} {
+				pr := shape
+				pr.LeafHash = ref.LeafHash(kv)
+				op := merkle.NewValueOp(key, &pr).ProofOp()
+				ops := &tmcrypto.ProofOps{Ops: []tmcrypto.ProofOp{op}}
+				for _, empty := range [][]byte{nil, {}} {
+					var verr error
+					func() {
+						defer func() {
+							if rec := recover(); rec != nil {
+								verr = fmt.Errorf("panic: %v", rec)
+							}
+						}()
+						verr = merkle.DefaultProofRuntime().VerifyValue(ops, empty, "/"+string(key), val)
+					}()
+					c.Eval()
+					c.Count("proof.value_op_against_empty_root", 1)
+					if verr == nil {
+						c.Violation("proofruntime-verifies-value-against-empty-root", fmt.Sprintf("ProofRuntime.VerifyValue accepted a value under a proof with total=%d index=%d aunts=%d against an EMPTY root", pr.Total, pr.Index, len(pr.Aunts)),
+							map[string]interface{}{"stream": "proof", "case": t, "total": pr.Total, "index": pr.Index, "aunts": len(pr.Aunts)})
+					}
 				}
 			}
 		}
@@ -980,4 +1034,9 @@ func Run(c *verdict.Ctx) int {
 	runPartsConcurrent(c)
 	runPartsHandMade(c)
 	return c.Finish(1000)
+}
+
+func sha256sum(b []byte) []byte {
+	h := sha256.Sum256(b)
+	return h[:]
 }
